@@ -450,6 +450,11 @@ func (f *formatStore) Batch(operations []spi.Operation) error {
 		}
 	}
 
+	if len(operations) > 0 && len(formattedOperations) == 0 {
+		// Every operation was a delete of a key that is not stored: there is nothing to do.
+		return nil
+	}
+
 	err = f.underlyingStore.Batch(formattedOperations)
 	if err != nil {
 		return fmt.Errorf("failed to perform formatted operations in underlying store: %w", err)
